@@ -24,7 +24,7 @@ Definition eval05 (c : case05) : verdict :=
   let cap := cap_of mi (loads (c_vw c) (c_p0 c) k) k in
   let in_contract :=
     Nat.ltb 0 n && Nat.eqb (length g) n && Nat.eqb (length (c_vw c)) n && Nat.leb 1 (c_threads c)
-    && rows_in_range g && symmetricb g && forallb (fun w => 0 <=? w) (c_vw c) in
+    && graph_okb g && forallb (fun w => 0 <=? w) (c_vw c) in
   let tr := decode_trace (c_trace c) in
   let md i := nth i (c_md c) (-1) in
   let prop :=
@@ -37,12 +37,12 @@ Definition eval05 (c : case05) : verdict :=
       end
     else true in
   (* correspondence: the machine, started as arc_swap starts, accepts every recorded event and
-     ends (outer loop left) in the implementation's final partition and Metadata; the f64
-     headroom division agrees with the exact integer quotient the caps theorem is stated for *)
+     ends (outer loop left) in the implementation's final partition and Metadata.  The machine runs
+     with [headroom_checked]: the f64 share of arc_swap, rejected where it is not the exact quotient *)
   let corr :=
     match c_impl c, cap, tr with
     | IOk p, Some cp, Some evs =>
-      let cf := config_of headroom_f64 g (c_vw c) (c_p0 c) (c_threads c) cp in
+      let cf := config_of headroom_checked g (c_vw c) (c_p0 c) (c_threads c) cp in
       match init_state cf (c_p0 c) with
       | None => false
       | Some st0 =>
@@ -52,8 +52,6 @@ Definition eval05 (c : case05) : verdict :=
           g_fin st && list_eqb Nat.eqb (g_part st) (map N.to_nat p)
           && list_eqb Z.eqb (md_list (g_md st) ++ [Z.of_nat ipt]) (c_md c)
           && list_eqb Z.eqb (g_pw st) (loads (c_vw c) (g_part st) k)
-          && forallb (fun x => match headroom_f64 (cp - x) tc, headroom_quot (cp - x) tc with
-                               | Some a, Some b => a =? b | _, _ => false end) (g_pw st)
         end
       end
     | IOk _, _, _ => false
